@@ -229,7 +229,10 @@ SSet(a, i, v) == [op |-> "set", a |-> a, i |-> i, v |-> v]  \* a[i] = v
 (* list state: the heap, which named arrays have been stored inside an array *)
 (* (aliased) and which of those changed their length afterwards (stale: what *)
 (* the copy shows is C09's alias question, not compared here)                *)
-LS(h, al, stl) == [h |-> h, aliased |-> al, stale |-> stl]
+(* pe: the statement being evaluated read an index past the end of an array  *)
+(* (value null, nothing changes: C09; the pinned code pads the array there)  *)
+LS(h, al, stl) == [h |-> h, aliased |-> al, stale |-> stl, pe |-> FALSE]
+LUpd(s, h2, stl2) == [s EXCEPT !.h = h2, !.stale = stl2]
 ER(s, res, status) == [s |-> s, res |-> res, status |-> status]
 LenChanged(s, id, h2) ==
   IF Len(h2[id].items) # Len(s.h[id].items) /\ id \in s.aliased THEN s.stale \cup {id} ELSE s.stale
@@ -237,16 +240,16 @@ LenChanged(s, id, h2) ==
 \* apply method m of array id with argument arg (Null when it takes none)
 Method(s, m, id, arg, dev) ==
   LET fin(r) == IF r.status # "ok" THEN ER(s, Null, r.status)
-                ELSE ER(LS(r.h, s.aliased, LenChanged(s, id, r.h)), r.res, "ok")
+                ELSE ER(LUpd(s, r.h, LenChanged(s, id, r.h)), r.res, "ok")
   IN
   CASE m = "push" ->
          IF arg.t = "arr" /\ arg.id = id THEN
             \* the array inside itself: a cycle (C17) in the intended semantics; in the pinned code a
             \* copy of the header, shown as a copy or as <circular reference> depending on the allocation
-            IF dev THEN ER(LS(ListPush(s.h, id, Wild).h, s.aliased, s.stale), Arr(id), "ok") ELSE ER(s, Null, "open")
+            IF dev THEN ER(LUpd(s, ListPush(s.h, id, Wild).h, s.stale), Arr(id), "ok") ELSE ER(s, Null, "open")
          ELSE LET s1 == IF arg.t = "arr" /\ arg.id \in Named THEN [s EXCEPT !.aliased = @ \cup {arg.id}] ELSE s
                   r == ListPush(s1.h, id, arg)
-              IN ER(LS(r.h, s1.aliased, LenChanged(s1, id, r.h)), r.res, "ok")
+              IN ER(LUpd(s1, r.h, LenChanged(s1, id, r.h)), r.res, "ok")
     [] m = "pop" -> fin(ListPop(s.h, id))
     [] m = "popfirst" -> fin(ListPopFirst(s.h, id))
     [] m = "length" -> fin(ListLength(s.h, id))
@@ -262,7 +265,7 @@ Eval(s, e) ==
   CASE e.e = "lit" -> ER(s, e.v, "ok")
     [] e.e = "get" ->
          LET n == Len(s.h[Id(e.a)].items) IN
-         IF Norm(n, e.i) >= n THEN ER(s, Null, "open")        \* a read past the end: C09's
+         IF Norm(n, e.i) >= n THEN ER([s EXCEPT !.pe = TRUE], Null, "ok")   \* a read past the end: null, nothing changes (C09)
          ELSE LET r == ListGet(s.h, Id(e.a), e.i) IN ER(s, r.res, r.status)
     [] e.e = "call" ->
          IF e.args = <<>> THEN Method(s, e.m, Id(e.a), Null, FALSE)
@@ -275,7 +278,7 @@ EvalD(s, e, last) ==
   CASE e.e = "lit" -> [r |-> ER(s, e.v, "ok"), last |-> last]
     [] e.e = "get" ->
          LET n == Len(s.h[Id(e.a)].items) IN
-         IF Norm(n, e.i) >= n THEN [r |-> ER(s, Null, "wild"), last |-> last]
+         IF Norm(n, e.i) >= n THEN [r |-> ER([s EXCEPT !.pe = TRUE], Null, "ok"), last |-> last]
          ELSE LET r == ListGet(s.h, Id(e.a), e.i) IN [r |-> ER(s, r.res, r.status), last |-> last]
     [] e.e = "call" ->
          LET l1 == [last EXCEPT ![e.m] = Id(e.a)] IN
@@ -285,11 +288,12 @@ EvalD(s, e, last) ==
               ELSE [r |-> Method(ra.r.s, e.m, ra.last[e.m], ra.r.res, TRUE), last |-> ra.last]
 Last0 == [m \in {"push", "pop", "popfirst", "length", "contains", "sort"} |-> 0]
 
-Exec(s, st, dev) ==
+Exec(s0, st, dev) ==
+  LET s == [s0 EXCEPT !.pe = FALSE] IN
   IF st.op = "set" THEN
      LET r == ListSet(s.h, Id(st.a), st.i, st.v) IN
      IF r.status # "ok" THEN ER(s, Null, r.status)
-     ELSE ER(LS(r.h, s.aliased, LenChanged(s, Id(st.a), r.h)), Null, "ok")
+     ELSE ER(LUpd(s, r.h, LenChanged(s, Id(st.a), r.h)), Null, "ok")
   ELSE IF dev THEN EvalD(s, st.x, Last0).r ELSE Eval(s, st.x)
 
 -----------------------------------------------------------------------------
